@@ -77,6 +77,12 @@ let () =
              Printf.sprintf "it=%d err=%s E=%s V=%s B=%s A=%s" (int_of_z o.o_it) (b2s o.o_err) (hex o.o_energy)
                (if vs = "" then "-" else vs) (if bs = "" then "-" else bs) (if at = "" then "-" else at) in
            Printf.printf "%s\n" (String.concat " ; " (List.map show outs))
+         | "TF" ->
+           (* TF lagged sub n {s f} -> reported total forces *)
+           let lagged = nb () in let sub = nb () in let n = ni () in
+           let hist = nlist n (fun () -> let sv = nf () in let fv = nf () in (sv, fv)) in
+           let tr = tf_trace fops lagged sub None 0.0 hist in
+           Printf.printf "%s\n" (String.concat " " (List.map hex tr))
          | _ -> Printf.printf "?\n")
       end
     done
